@@ -181,6 +181,36 @@ initSetIteration(SetIteration *i, PyObject *s, int useValues)
             Py_DECREF(list);
             return -1;
         }
+        /* The merge algorithms need strictly increasing keys, like the
+           BTrees types deliver them:  drop duplicates from the sorted
+           list. */
+        {
+            Py_ssize_t n = PyList_GET_SIZE(list);
+            Py_ssize_t rd, wr = 0;
+
+            for (rd = 0; rd < n; rd++) {
+                PyObject *item = PyList_GET_ITEM(list, rd);
+                if (wr > 0) {
+                    int eq = PyObject_RichCompareBool(
+                        PyList_GET_ITEM(list, wr - 1), item, Py_EQ);
+                    if (eq < 0) {
+                        Py_DECREF(list);
+                        return -1;
+                    }
+                    if (eq)
+                        continue;
+                }
+                if (wr != rd) {
+                    Py_INCREF(item);
+                    PyList_SetItem(list, wr, item); /* steals our ref */
+                }
+                wr++;
+            }
+            if (wr < n && PyList_SetSlice(list, wr, n, NULL) < 0) {
+                Py_DECREF(list);
+                return -1;
+            }
+        }
         /* The reference to the iterater will keep the list alive */
         i->set = PyObject_GetIter(list);
         Py_DECREF(list);
